@@ -31,16 +31,19 @@ def random_descriptor(rng, sel, body='record', allow_req=False):
     allow = rng.sample(names, rng.randint(1, len(names)))
   # gin rejects a signature-level REQUIRED on a parameter that is not configurable
   dflt = [[p, (D(p) if v == ['req'] and (p in deny or (allow != ['*'] and p not in allow)) else v)] for p, v in dflt]
+  api = rng.choice(['configurable', 'external', 'register'])
+  # a function that carries somebody else's functools.wraps decorator when it is registered
+  deco = kind == 'fn' and api != 'configurable' and not any(v == ['req'] for _, v in dflt) and rng.random() < 0.2
   return dict(sel=sel, kind=kind, pos=pos, npd=npd, kwo=kwo, kwd=kwd, va=rng.random() < 0.3, vk=rng.random() < 0.3,
-              dflt=dflt, allow=allow, deny=deny, body=body, api=rng.choice(['configurable', 'external', 'register']))
+              dflt=dflt, allow=allow, deny=deny, body=body, api=api, deco=deco)
 
 
 GIN_MACRO = dict(sel=['gin', 'macro'], kind='fn', pos=['value'], npd=0, kwo=[], kwd=[], va=False, vk=False, dflt=[],
-                 allow=['*'], deny=[], body='macro', api='builtin')
+                 allow=['*'], deny=[], body='macro', api='builtin', deco=False)
 GIN_CONSTANT = dict(sel=['gin', 'constant'], kind='fn', pos=[], npd=0, kwo=[], kwd=[], va=False, vk=False, dflt=[],
-                    allow=['*'], deny=[], body='const', api='builtin')
+                    allow=['*'], deny=[], body='const', api='builtin', deco=False)
 GIN_SINGLETON = dict(sel=['gin', 'singleton'], kind='fn', pos=['constructor'], npd=0, kwo=[], kwd=[], va=False, vk=False,
-                     dflt=[], allow=['*'], deny=[], body='singleton', api='builtin')
+                     dflt=[], allow=['*'], deny=[], body='singleton', api='builtin', deco=False)
 SCOPES = ['a', 'b', 'ab', 'W', 's1']
 CONST_NAMES = [['X'], ['m', 'X'], ['n', 'm', 'X'], ['n', 'Y']]
 
